@@ -1,4 +1,5 @@
 import SlipVerif.Model.Conc
+import SlipVerif.Model.Lin
 import SlipVerif.Driver.Util
 --! namespace: conc
 /- line protocol for C17 (all numbers decimal, `-` = empty list):
@@ -14,6 +15,11 @@ import SlipVerif.Driver.Util
                   (push pop select incr lock handler fail)
        -> ok q=<0|1> steps=<n> guarded=<0|1> distinct=<0|1> finals=<v,..> got=<per thread #received>
              items=<per channel sorted p.v list;..> left=<per channel #buffered> fifo=.. mutex=.. counter=..
+     conc lin <history>             history = i.t.k,p.t.k.v,r.t.k,..  in trace order (invocation of an
+                                    increment of counter k by thread t / its point: value v read /
+                                    its response); operations = Lin.opsOf, verdict = Lin.linCheck
+       -> ok pass n=<operations> | ok fail malformed | ok fail times | ok fail order
+          | ok fail seq at=<index of the first operation the sequential replay rejects> k=<counter>
    The semantics executed by `run` and the checkers are the definitions of Model/Conc.lean the
    theorems of Theorems/C17.lean are about. -/
 namespace SlipVerif.Driver.Conc
@@ -216,11 +222,43 @@ def handleRun (seed fuel caps guards nch nctr : String) (toks : List String) : S
           s!"ok q={b q} steps={steps} guarded={b (S.guarded g)} distinct={b (S.distinctSends nch)} finals={finals} got={got} items={items} left={left} fifo={pf fifo} mutex={pf mtx} counter={pf ctr}"
   | _, _, _, _, _, _ => "bad-request args"
 
+def parseHEv (s : String) : Option Lin.HEv :=
+  match s.splitOn "." with
+  | ["i", t, k] => do
+      let t ← t.toNat?
+      let k ← k.toNat?
+      some (.inv t k)
+  | ["p", t, k, v] => do
+      let t ← t.toNat?
+      let k ← k.toNat?
+      let v ← v.toNat?
+      some (.pt t k v)
+  | ["r", t, k] => do
+      let t ← t.toNat?
+      let k ← k.toNat?
+      some (.res t k)
+  | _ => none
+
+def handleLin (hist : String) : String :=
+  match (splitList hist ",").mapM parseHEv with
+  | none => "bad-request parse"
+  | some h =>
+      match Lin.opsOf h with
+      | none => "ok fail malformed"
+      | some ops =>
+          if Lin.linCheck ops then s!"ok pass n={ops.length}"
+          else if !ops.all Lin.timesOk then "ok fail times"
+          else if !Lin.ptSorted ops then "ok fail order"
+          else match Lin.firstBad (fun _ => 0) 0 ops with
+            | some (i, o) => s!"ok fail seq at={i} k={o.k}"
+            | none => "ok fail seq"
+
 def handle (entry : String) (args : List String) : String :=
   match entry, args with
   | "fifo", [q, sent, recv, left] => handleFifo q sent recv left
   | "mutex", [q, log] => handleMutex q log
   | "counter", [reads, finals] => handleCounter reads finals
+  | "lin", [hist] => handleLin hist
   | "run", seed :: fuel :: caps :: guards :: nch :: nctr :: toks => handleRun seed fuel caps guards nch nctr toks
   | _, _ => "bad-request entry"
 
